@@ -1,6 +1,7 @@
 (* C10 — metadata is an exact last-writer-wins key-value store across namespaces.
    Only statements here; proofs live in Proofs/. *)
 From VZ Require Import Base.Prelude Model.Namespace Model.Metadata Proofs.NamespaceP Proofs.MetadataP Model.Service Proofs.MdRpcP.
+From VZ Require Model.NamespaceIR Gen.NamespaceSrc Proofs.NamespaceSrcP.
 From Coq Require Import Sorting.Sorted.
 
 (* FULL statement of the namespace claim (refuted on the code as it is): *)
@@ -92,3 +93,16 @@ Proof.
   exists n'. split; [exact Hn'|]. rewrite Hmd. apply lww_fold. exact Hnd.
 Qed.
 Print Assumptions C10_update_metadata_history.
+
+(* ENCODE AND PARSE ARE THE SOURCE.  Gen/NamespaceSrc.v is regenerated at every run from common.py: the escape table and the
+   join of Namespace.encode; the prologue of _parse (empty string, ONE leading separator removed, split on the separator) and
+   the four branches of its loop (test, join or append, drop the escape character or not, next join flag).  Their meaning is
+   the pair of functions every namespace theorem above is about. *)
+Theorem C10_source_parse_is_the_model : forall arg,
+  NamespaceIR.parse_of NamespaceSrc.src_sep NamespaceSrc.src_esc NamespaceSrc.src_prologue NamespaceSrc.src_branches arg = parse arg.
+Proof. exact NamespaceSrcP.src_parse_is_parse. Qed.
+Print Assumptions C10_source_parse_is_the_model.
+Theorem C10_source_encode_is_the_model : forall ns,
+  NamespaceIR.encode_of NamespaceSrc.src_sep NamespaceSrc.src_escape_table ns = encode ns.
+Proof. exact NamespaceSrcP.src_encode_is_encode. Qed.
+Print Assumptions C10_source_encode_is_the_model.
